@@ -43,21 +43,25 @@ impl<'a> BerDecoder<'a> for SnmpReal {
 
                 // 8.5.7.4 Bits 2 to 1 of the first contents octet
                 // shall encode the format of the exponent as follows:
-                let ln = (f & 0x03) as usize + 2;
-                if i.len() < ln {
+                // 00 => 1 octet, 01 => 2 octets, 10 => 3 octets,
+                // 11 => the next octet holds the number of exponent octets
+                let (e_start, e_len) = match f & 0x03 {
+                    0x03 => {
+                        if i.len() < 2 {
+                            return Err(SnmpError::InvalidData);
+                        }
+                        (2usize, i[1] as usize)
+                    }
+                    n => (1usize, n as usize + 1),
+                };
+                let m_start = e_start + e_len;
+                if e_len == 0 || i.len() < m_start {
                     return Err(SnmpError::InvalidData);
                 }
-                let e = SnmpReal::parse_u32(&i[1..ln]) as i32;
-                let mut v: f64 = SnmpReal::parse_u32(&i[ln..]).into();
-                // 8.5.7.3: Bits 4 to 3 of the first contents octet shall
-                // encode the value of the binary scaling factor F
-                // as an unsigned binary integer.
-                match (f & 0x0c) >> 2 {
-                    1 => v *= 2.0,
-                    2 => v *= 4.0,
-                    3 => v *= 8.0,
-                    _ => return Err(SnmpError::InvalidData),
-                }
+                // 8.5.7.4: the exponent is a two's complement binary number
+                let e = SnmpReal::parse_exponent(&i[e_start..m_start]);
+                // 8.5.7.5: the mantissa N is an unsigned binary integer
+                let (n, shift) = SnmpReal::parse_mantissa(&i[m_start..]);
                 // 8.5.7.2: Bits 6 to 5 of the first contents octets
                 // shall encode the value of the base B' as follows:
                 // Bits6to5 => Base
@@ -65,19 +69,21 @@ impl<'a> BerDecoder<'a> for SnmpReal {
                 // 01 => base 8
                 // 10 => base 16
                 // 11 => Reserved for further editions of this Recommendation | International Standard.
-                let base: f64 = match f & 0x30 {
-                    0 => 2.0,
-                    0x10 => 8.0,
-                    0x20 => 16.0,
+                let bits_per_digit: i64 = match f & 0x30 {
+                    0 => 1,
+                    0x10 => 3,
+                    0x20 => 4,
                     _ => return Err(SnmpError::InvalidData),
                 };
-                v *= base.powi(e);
+                // 8.5.7.3: Bits 4 to 3 of the first contents octet shall
+                // encode the value of the binary scaling factor F
+                // as an unsigned binary integer.
+                let scale = ((f & 0x0c) >> 2) as i64;
+                // M = S * N * 2^F, value = M * B^E: a power of two altogether
+                let v = SnmpReal::ldexp(n, e.saturating_mul(bits_per_digit) + scale + shift);
                 // 8.5.7.1: Bit 7 of the first contents octets
                 // shall be 1 if S is –1 and 0 otherwise.
-                if f & 0x40 == 0x40 {
-                    v = -v
-                }
-                v
+                if f & 0x40 == 0x40 { -v } else { v }
             }
             f if f & 0xc0 == 0 => {
                 // 8.5.8: Decimal encoding
@@ -117,12 +123,78 @@ impl<'a> BerDecoder<'a> for SnmpReal {
 }
 
 impl SnmpReal {
-    fn parse_u32(i: &[u8]) -> u32 {
-        let mut v = 0u32;
+    // Two's complement exponent, clamped far outside of the f64 range
+    fn parse_exponent(i: &[u8]) -> i64 {
+        const LIMIT: i64 = 1 << 40;
+        let mut v: i64 = if i[0] & 0x80 == 0x80 { -1 } else { 0 };
         for &n in i.iter() {
-            v = (v << 8) | (n as u32);
+            v = (v << 8) | (n as i64);
+            if v > LIMIT || v < -LIMIT {
+                return if v > 0 { LIMIT } else { -LIMIT };
+            }
         }
         v
+    }
+    // Unsigned mantissa as (n, shift): N = n * 2^shift.
+    // When N is wider than 64 bits, the dropped low-order
+    // bits are folded into the lowest bit of n (sticky bit),
+    // which keeps the rounding to 53 bits exact.
+    fn parse_mantissa(i: &[u8]) -> (u64, i64) {
+        let mut v = 0u64;
+        let mut shift = 0i64;
+        let mut sticky = false;
+        for &n in i.iter() {
+            if v >> 56 == 0 {
+                v = (v << 8) | (n as u64);
+            } else {
+                shift += 8;
+                sticky |= n != 0;
+            }
+        }
+        if sticky {
+            v |= 1;
+        }
+        (v, shift)
+    }
+    // 2^e for -1022 <= e <= 1023
+    fn pow2(e: i64) -> f64 {
+        f64::from_bits(((e + 1023) as u64) << 52)
+    }
+    // n * 2^e, rounded once (to nearest, ties to even)
+    fn ldexp(n: u64, e: i64) -> f64 {
+        if n == 0 {
+            return 0.0;
+        }
+        let bits = 64 - n.leading_zeros() as i64;
+        // Exponent of the leading bit
+        let top = e.saturating_add(bits - 1);
+        if top > 1023 {
+            return f64::INFINITY;
+        }
+        if top >= -1022 {
+            // Normal range: the conversion rounds, the scaling is exact
+            let h = e / 2;
+            return (n as f64) * SnmpReal::pow2(h) * SnmpReal::pow2(e - h);
+        }
+        // Subnormal range: count in units of 2^-1074
+        let s = -1074 - e;
+        let q = if s <= 0 {
+            n << (-s)
+        } else if s > 64 {
+            0
+        } else {
+            let (q, rem, half) = if s == 64 {
+                (0u64, n, 1u64 << 63)
+            } else {
+                (n >> s, n & ((1u64 << s) - 1), 1u64 << (s - 1))
+            };
+            if rem > half || (rem == half && q & 1 == 1) {
+                q + 1
+            } else {
+                q
+            }
+        };
+        f64::from_bits(q)
     }
 }
 
